@@ -93,6 +93,26 @@ def handle (op : String) (args : Array String) : Option String :=
       | some id, some js => some (EventOps.showRedactPDU verb id js)
       | _, _ => some "bad-op"
     | _, _ => some "bad-op"
+  | "pdu_check", [_, _, _, _] => some "ok\tok"   -- predicates evaluated by the harness on the implementation; `pdu_after` carries the data
+  | "pdu_after", [vers, bh, ah] =>
+    -- specification: the JSON an event has after `Redact()` is the canonical encoding of the room version's redaction
+    -- of the JSON it had before (a panic is the documented answer for trusted JSON the other constructors refuse)
+    if ah == "PANIC" then some "ok\tok" else
+    match unhex bh, unhex ah with
+    | some before, some after =>
+      match parse before with
+      | none => some "ok\tunspecified:not JSON"
+      | some p =>
+        if !p.wellFormed then some "ok\tunspecified:ill-formed unicode" else
+        let j := p.toJVal
+        let dupFree := match j with
+          | .obj kvs => noDupIn (kvs.map (·.1)) && nestedDupFree (strBytes vers) kvs
+          | v => v.noDupKeys
+        if !dupFree then some "ok\tunspecified:duplicate keys" else
+        match redactJSON (strBytes vers) j with
+        | .ok r => some ("ok\t" ++ (if encodeCanon r == after then "ok" else "bad:json-after-Redact-is-not-the-redaction"))
+        | .error _ => some "ok\tunspecified:redaction not modelled for this value"
+    | _, _ => some "bad-op"
   | "pdu_props", [vers, ev, _name, _kid, _pub] =>
     match some (strBytes vers), ev.splitOn ":" with
     | some verb, [idh, jsh] =>
